@@ -11,6 +11,22 @@ use std::collections::BTreeSet;
 // ---------------------------------------------------------------------------
 // (a) round trip and format
 
+/// a `fmt::Write` sink with room for a limited number of bytes
+struct ShortSink {
+    room: usize,
+}
+
+impl std::fmt::Write for ShortSink {
+    fn write_str(&mut self, s: &str) -> std::fmt::Result {
+        if s.len() > self.room {
+            self.room = 0;
+            return Err(std::fmt::Error);
+        }
+        self.room -= s.len();
+        Ok(())
+    }
+}
+
 pub fn matrix_strategy(maxdim: usize) -> BoxedStrategy<Mat> {
     (1..=maxdim, 1..=maxdim, 0..7u8)
         .prop_flat_map(|(r, c, class)| {
@@ -82,6 +98,18 @@ fn check_roundtrip(m: &Mat, p: &mut Probe) -> Check {
     p.class_if(rl.iter().chain(cl.iter()).any(|l| l.len() > 32), "weight>32");
     if empty_line || irregular {
         p.nontrivial();
+    }
+    // a third of the cases: the matrix is first written into a sink that runs out of room part of the
+    // way (the caller sees the error); what the writer returns then is not judged, what alist() gives
+    // afterwards is
+    if (m.ones.len() + m.rows + m.cols) % 3 == 0 {
+        let full = own_alist(m, true).len();
+        for (k, padded) in [(13usize, true), (29, false), (7, true)] {
+            let mut sink = ShortSink { room: (m.ones.len() * k + m.rows * 5 + k) % (full + 1) };
+            let r = guarded(|| if padded { h.write_alist(&mut sink) } else { h.write_alist_no_padding(&mut sink) })
+                .map_err(|e| Fail::new("writer-panic", format!("write_alist into a sink that returns an error panicked: {e}")))?;
+            p.class_if(r.is_err(), "after-a-write-that-failed");
+        }
     }
     for padded in [true, false] {
         let which = if padded { "alist()" } else { "alist_no_padding()" };
